@@ -42,6 +42,8 @@ def priority_rules(ctx):
     bad = [M.short_name(M.call_name(t)) for bb, t in po.calls(r"Iterator>::(rev|rposition|skip|take|filter|step_by|skip_while|take_while|chain|zip)\b|::(binary_search\w*|sort\w*)$")]
     if bad == ["zip"] and st["source"] and all(re.search(r"zip\(&?\*?self\.terminal_ids, RangeFrom\(0\)\)$", x) for x in st["source"]):
         bad = []        # zip(0..) numbers the elements front to back: enumerate with the pair the other way round
+    if bad == ["take_while"] and st["source"] and all(re.search(r"^take_while\(&?\*?self\.terminal_ids, closure#", x) for x in st["source"]) and list(po.calls(r"iter::Iterator>::count$")):
+        bad = []        # take_while(!= t).count() *is* the search: the number of entries in front of the first match
     ok_src = bool(st["source"]) and all("self.terminal_ids" in x for x in st["source"]) and not bad
     ctx.ob("C01.c", "priority_of:searches-terminal_ids-front-to-back", ok_src, "search over %s; reordering / non-linear search calls: %s" % (sorted(set(st["source"])), bad), po.loc())
     ctx.floor("C01.c", "paths of priority_of that find the terminal", len(st["hit"]), 1)
